@@ -127,6 +127,18 @@ class ExternalOptimizer(Optimizer):
                 with contextlib.suppress(subprocess.TimeoutExpired):
                     process.wait(_PROCESS_TIMEOUT)
 
+                # The process has ended. An exception that could not be passed
+                # on before it ended must not be lost, and only a process that
+                # finished by itself with a zero exit code completed normally:
+                if exception is not None:
+                    raise exception
+                if process.returncode != 0:
+                    msg = (
+                        "The external optimizer process terminated abnormally "
+                        f"(exit code: {process.returncode})"
+                    )
+                    raise RuntimeError(msg)
+
     @property
     def allow_nan(self) -> bool:
         """Whether NaN is allowed.
